@@ -9,7 +9,7 @@ which holes are symbolic (the others take the defaults below) and how long they 
 Flags: f08 = Fortran-2008 only; fix = may be rendered in fixed form; one = in the fparser1 subset.
 """
 
-DEFAULTS = dict(n1="a", n2="b2", n3="c_3", n4="dd", n5="e5", n6="f", n7="g7", n8="h", n9="nm",
+DEFAULTS = dict(n1="a", n2="b2", n3="c_3", n4="dd", n5="e5", n6="fr", n7="g7", n8="pg", n9="nm",
                 d1="1", d2="20", d3="3", d4="4", L1="10", L2="20", L3="30", L4="40", L5="50", L6="60", L7="70", L8="80", L9="90",
                 n9a="nma", n9b="nmb", o1="myop", s1="xy", s2="it", s3="q")
 
